@@ -90,6 +90,9 @@ func attStr(svs []simServe) string {
 		if s.notCurrent {
 			cur = ".stale"
 		}
+		if s.specMismatch {
+			cur = ".wrongspec"
+		}
 		out = append(out, fmt.Sprintf("%s.%d.%d.%d.%s%s", s.kind, addrIdx(s.addr), b(s.hosted), b(s.inRange), s.outcome, cur))
 	}
 	if len(out) == 0 {
@@ -784,6 +787,29 @@ func apiCall(sc *simClient, api string, ctx context.Context) string {
 		g1, _ := hrpc.NewGet(ctx, []byte("t"), []byte("a"))
 		g2, _ := hrpc.NewGet(ctx, []byte("t"), []byte("z"))
 		res, ok := sc.cl.SendBatch(ctx, []hrpc.Call{g1, g2})
+		if ok {
+			return "ok"
+		}
+		cls := []string{}
+		for _, r := range res {
+			cls = append(cls, classOf(r.Error))
+		}
+		sort.Strings(cls)
+		return strings.Join(cls, "+")
+	case "batchbg", "batchown1":
+		// contexts distinct between the batch and its calls: either the batch's context ends and the
+		// calls have none of their own, or the batch has none and its only call's context ends
+		bctx, cctx := ctx, context.Background()
+		calls := 2
+		if api == "batchown1" {
+			bctx, cctx, calls = context.Background(), ctx, 1
+		}
+		var cs []hrpc.Call
+		for _, k := range []string{"a", "z"}[:calls] {
+			g, _ := hrpc.NewGet(cctx, []byte("t"), []byte(k))
+			cs = append(cs, g)
+		}
+		res, ok := sc.cl.SendBatch(bctx, cs)
 		if ok {
 			return "ok"
 		}
@@ -1612,8 +1638,13 @@ func init() {
 	props["C13"] = func(tier string, seed uint64, out *Out) {
 		var jobs []func() string
 		for _, st := range waitStates {
-			for _, api := range []string{"get", "batch", "scan"} {
+			for _, api := range []string{"get", "batch", "scan", "batchbg", "batchown1"} {
 				for _, mode := range []string{"cancel", "deadline", "cancelwd"} {
+					if strings.HasPrefix(api, "batchb") || strings.HasPrefix(api, "batcho") {
+						if mode == "cancelwd" {
+							continue
+						}
+					}
 					st, api, mode := st, api, mode
 					jobs = append(jobs, func() string { return waitScenario(st, api, mode) })
 					if tier != "quick" {
